@@ -35,7 +35,7 @@ TRIGGERS = {
     # branch (e.g. a taken branch to the end label) takes effect although it is on the wrong path
     "ooo-2branch": lambda v, f: v in SUPER and v != "mvp6-0" and f["ld_text"] and f["cbr_text"] >= 2,
     # D26: a wrong-path instruction that raises a defined error fails the run (6.0; the renaming variants too)
-    "ooo-spec-error": lambda v, f: v in ("mvp6-0", "mvp6-3", "mvp7-0", "mvp7-1", "mvp8-0") and f["err_text"] and f["branches"],
+    "ooo-spec-error": lambda v, f: v in SUPER and f["err_text"] and f["branches"],
     # MVP-6.2's transaction map holds ONE uncommitted write per register: a wrong-path write of a register replaces an older,
     # still uncommitted right-path write of it, and the rollback then drops both (the right-path value is lost)
     "ooo-txmap": lambda v, f: v == "mvp6-2" and f["ld_text"] and f["cbr_text"] >= 1 and f["static_waw"],
